@@ -182,8 +182,12 @@ func (g *docGen) matrix() any {
 	if g.pick(3) == 0 {
 		return vals() // matrix: [a, b]
 	}
-	if g.pick(8) == 0 {
+	if g.pick(6) == 0 {
 		// a matrix mapping WITHOUT setup: empty, only extras, only adjustments (one of them without `with`)
+		if g.pick(3) == 0 {
+			// ... or empty in one of its spellings: all of them are "no matrix" - also after the text has been through the library once
+			return []any{orderedJSON{}, orderedJSON{{"setup", orderedJSON{}}}, orderedJSON{{"setup", orderedJSON{}}, {"adjustments", []any{}}}, orderedJSON{{"adjustments", []any{}}}}[g.pick(4)]
+		}
 		out := [][2]any{}
 		if g.pick(2) == 0 {
 			out = append(out, [2]any{g.str("key"), g.anyValue(1)})
